@@ -68,7 +68,7 @@ fn rewrite_timestamp_line(line: &[u8], opts: &Options) -> Vec<u8> {
     let new_timestamp = if let Some(fixed_ts) = opts.date_set {
         fixed_ts
     } else if let Some(shift) = opts.date_shift {
-        timestamp.saturating_add(shift)
+        timestamp.saturating_add(shift).max(0)
     } else {
         timestamp
     };
